@@ -4,7 +4,8 @@
    adversarial ones, any random draws, any adaptive threshold).  Statements only. *)
 From Coq Require Import ZArith QArith List Bool.
 From V Require Import Base.Num Model.StreamCore Model.Zliobaite Model.StreamCounters
-  Proofs.StreamGeneric Proofs.ZlProofs Proofs.CounterProofs Proofs.ZlBound Proofs.CounterBound.
+  Proofs.StreamGeneric Proofs.StreamGenericX Proofs.ZlProofs Proofs.CounterProofs Proofs.ZlBound Proofs.CounterBound
+  Model.StreamStrategy Proofs.StrategyBound.
 Import ListNotations.
 Open Scope Q_scope.
 
@@ -56,6 +57,18 @@ Proof.
   exact (counter_bound k p Hb Hk s (concat chunks) Ho Hq).
 Qed.
 Print Assumptions C04_baselines_bound.
+
+(* a stream STRATEGY built on a window-based manager (FixedUncertainty, VariableUncertainty, Split, ..., StreamDensityBasedAL with
+   such a manager): whatever utilities its classifier reports, whatever its filter lets pass, however the stream is chunked *)
+Theorem C04_strategy_over_zliobaite_bound :
+  forall (k : zkind) (p : @zparams Q) (C W : Type) (wstep : W -> C -> bool * W) (inp : bool -> C -> zin)
+         (w : W) (s : zstate) (chunks : list (list C)),
+  (1 <= zp_w p)%Z -> 0 < zp_b p -> u_t s == 0 ->
+  let mu := fun m (xs : list zin) idx => zupdate k p m (length xs) idx in
+  cnt (fst (xprocess (squery (zquery k p) wstep inp) (supdate mu wstep inp) (w, s) chunks)) <
+  zp_b p * qlen (concat chunks) + qlen (concat chunks) * / inject_Z (zp_w p) + zp_b p * inject_Z (zp_w p) + 1.
+Proof. exact strategy_zliobaite_bound. Qed.
+Print Assumptions C04_strategy_over_zliobaite_bound.
 
 (* the additive terms are not slack: 12 maximal utilities, b = 3/10, w = 10:
    6 labels are granted although b*n = 3.6 (and 6 < 3.6 + 1.2 + 3 + 1) *)
